@@ -154,9 +154,10 @@ Lemma pop_raw_ok n rest :
   (0 <= n)%Z -> rest <> [] -> (n <= Z.of_nat (length rest))%Z ->
   pop_raw n (mkdec rest false) = Ok (firstn (Z.to_nat n) rest, mkdec (skipn (Z.to_nat n) rest) false).
 Proof.
-  intros H0 Hne Hn. unfold pop_raw. cbn [d_err d_rest].
-  destruct (Z.ltb_spec n 0); [lia|]. destruct rest as [|x r]; [congruence|].
-  destruct (Z.ltb_spec (Z.of_nat (length (x :: r))) n); [lia|reflexivity].
+  intros H0 Hne Hn. unfold pop_raw_gen. cbn [d_err d_rest].
+  destruct (Z.ltb_spec n 0); [lia|].
+  destruct (Z.ltb_spec (Z.of_nat (length rest)) n); [lia|]. cbn [orb].
+  destruct rest as [|x r]; [congruence|reflexivity].
 Qed.
 
 (* the last Pop of DeserializeEncrypted may hit the end of the data (empty body, no padding) *)
@@ -165,16 +166,18 @@ Lemma pop_raw_fst n rest :
   exists d', pop_raw n (mkdec rest false) = Ok (firstn (Z.to_nat n) rest, d').
 Proof.
   intros H0 Hn. destruct rest as [|x r].
-  - unfold pop_raw. cbn [d_err d_rest]. destruct (Z.ltb_spec n 0); [lia|].
+  - unfold pop_raw_gen. cbn [d_err d_rest length]. destruct (Z.ltb_spec n 0); [lia|].
+    destruct (Z.ltb_spec (Z.of_nat 0) n); [cbn [length] in Hn; lia|]. cbn [orb].
     rewrite firstn_nil. eauto.
   - rewrite pop_raw_ok by (congruence || lia). eauto.
 Qed.
 
-Lemma pop_raw_nonneg n d : (0 <= n)%Z -> exists r, pop_raw n d = Ok r.
+(* PopRawBytes of HEAD never panics, whatever the size *)
+Lemma pop_raw_total n d : exists r, pop_raw n d = Ok r.
 Proof.
-  intros H. unfold pop_raw. destruct (Z.ltb_spec n 0); [lia|].
-  destruct (d_err d); [eauto|]. destruct (d_rest d) as [|x r]; [eauto|].
-  destruct (Z.of_nat (length (x :: r)) <? n)%Z; eauto.
+  unfold pop_raw_gen. destruct (d_err d); [eauto|].
+  destruct ((n <? 0)%Z || (Z.of_nat (length (d_rest d)) <? n)%Z); [eauto|].
+  destruct (d_rest d); eauto.
 Qed.
 
 Lemma pop_word_ok k rest :
@@ -308,7 +311,7 @@ Qed.
 Lemma deserialize_unencrypted_no_panic data : deserialize_unencrypted data <> Panic.
 Proof.
   unfold deserialize_unencrypted.
-  destruct (pop_raw_nonneg 8 (new_decoder data) ltac:(lia)) as [r ->]. cbn [obind].
+  destruct (pop_raw_total 8 (new_decoder data)) as [r ->]. cbn [obind].
   destruct (pop_word 8 (snd r)) as [msgid d].
   destruct (negb (server_parity msgid)); [discriminate|].
   destruct (pop_word 4 d) as [mlen d'].
@@ -391,7 +394,7 @@ Qed.
 (* C04: what acceptance implies.  No hypothesis on SHA-1 or IGE. *)
 Lemma accept_inv key pkt m :
   open_client sha1 ige_d key pkt = Ok m ->
-  (40 <= length pkt)%nat /\
+  (40 <= length pkt)%nat /\ (136 <= length key)%nat /\
   firstn 8 pkt = auth_key_id key /\
   exists dec,
     decrypt sha1 ige_d (skipn 24 pkt) key (slice pkt 8 24) = Ok dec /\
@@ -402,8 +405,9 @@ Lemma accept_inv key pkt m :
     m = mkemsg (of_le (slice dec 0 8)) (of_le (slice dec 8 16)) (of_le (slice dec 16 24))
                (of_le (slice dec 24 28)) (slice pkt 8 24) (firstn (Z.to_nat mlen) (skipn 32 dec)).
 Proof.
-  unfold open_client, open_client_gen. cbn [andb].
+  unfold open_client, open_client_gen. cbn [andb negb].
   destruct (Nat.ltb_spec (length pkt) 40) as [|H40]; [discriminate|].
+  destruct (Nat.ltb_spec (length key) 136) as [|H136]; [discriminate|].
   destruct (open_pops pkt H40) as (O1 & O2 & O3).
   rewrite O1. cbn [obind fst snd].
   destruct (beq_spec (firstn 8 pkt) (auth_key_id key)) as [Hid|]; cbn [negb]; [|discriminate].
@@ -424,16 +428,16 @@ Proof.
     cbn [negb]; [|discriminate].
   destruct (pop_raw_fst mlen (skipn 32 dec)) as [d' Hd']; [lia|rewrite skipn_length; lia|].
   rewrite Hd'. cbn [obind fst]. intros E. injection E as <-.
-  split; [exact H40|]. split; [exact Hid|]. exists dec. split; [reflexivity|].
+  split; [exact H40|]. split; [exact H136|]. split; [exact Hid|]. exists dec. split; [reflexivity|].
   fold mlen. cbv zeta. split; [lia|]. split; [symmetry; exact Hmk|]. split; [exact Hpar|reflexivity].
 Qed.
 
-(* C04: DeserializeEncrypted never panics (any packet, any key of at least 136 bytes) *)
-Theorem open_client_no_panic key pkt :
-  (136 <= length key)%nat -> open_client sha1 ige_d key pkt <> Panic.
+(* C04: DeserializeEncrypted never panics: any packet, ANY key (absent, short, long) *)
+Theorem open_client_no_panic key pkt : open_client sha1 ige_d key pkt <> Panic.
 Proof.
-  intros Hkey. unfold open_client, open_client_gen. cbn [andb].
+  unfold open_client, open_client_gen. cbn [andb negb].
   destruct (Nat.ltb_spec (length pkt) 40) as [|H40]; [discriminate|].
+  destruct (Nat.ltb_spec (length key) 136) as [|Hkey]; [discriminate|].
   destruct (open_pops pkt H40) as (O1 & O2 & O3).
   rewrite O1. cbn [obind fst snd].
   destruct (negb (beq (firstn 8 pkt) (auth_key_id key))); [discriminate|].
@@ -449,15 +453,14 @@ Proof.
   destruct (Z.ltb_spec (32 + mlen) 0); cbn [orb]; [lia|].
   destruct (Z.ltb_spec (Z.of_nat (length dec)) (32 + mlen)); [lia|].
   destruct (negb (beq (slice (sha1 (firstn (Z.to_nat (32 + mlen)) dec)) 4 20) (slice pkt 8 24))); [discriminate|].
-  destruct (pop_raw_nonneg mlen d G1) as [r ->]. discriminate.
+  destruct (pop_raw_total mlen d) as [r ->]. discriminate.
 Qed.
 
-Theorem read_dispatch_no_panic key data :
-  (136 <= length key)%nat -> read_dispatch sha1 ige_d key data <> Panic.
+Theorem read_dispatch_no_panic key data : read_dispatch sha1 ige_d key data <> Panic.
 Proof.
-  intros Hkey. unfold read_dispatch.
+  unfold read_dispatch.
   destruct (is_packet_encrypted data).
-  - pose proof (open_client_no_panic key data Hkey).
+  - pose proof (open_client_no_panic key data).
     destruct (open_client sha1 ige_d key data); cbn [omap obind]; [|discriminate|congruence].
     destruct (negb (server_parity (any_msgid (AEnc a)))); discriminate.
   - pose proof (deserialize_unencrypted_no_panic data).
@@ -478,7 +481,7 @@ Theorem same_message_core key pkt m salt sid msgid seq body :
   fields_of m = (salt, sid, msgid, seq, body).
 Proof.
   intros Hacc Hsalt Hsid Hmsgid Hseq Hbody P Hmk Hnc.
-  destruct (accept_inv _ _ _ Hacc) as (_ & _ & dec & Ed & Hrest). cbv zeta in Hrest.
+  destruct (accept_inv _ _ _ Hacc) as (_ & _ & _ & dec & Ed & Hrest). cbv zeta in Hrest.
   destruct Hrest as (Hlen & Hmk2 & _ & ->).
   assert (HT : client_plain sha1 ige_d key pkt = Some (firstn (Z.to_nat (32 + to_i32 (of_le (slice dec 28 32)))) dec))
     by (unfold client_plain; rewrite Ed; reflexivity).
@@ -679,8 +682,9 @@ Proof.
   unfold substr in P1, P2. cbn [skipn] in P1.
   assert (H40 : (40 <= length pkt)%nat) by (rewrite P4, Hct; lia).
   destruct (open_pops pkt H40) as (O1 & O2 & O3).
-  unfold open_client, open_client_gen. cbn [andb].
+  unfold open_client, open_client_gen. cbn [andb negb].
   destruct (Nat.ltb_spec (length pkt) 40); [lia|].
+  destruct (Nat.ltb_spec (length key) 136); [lia|].
   rewrite O1. cbn [obind fst snd]. rewrite P1, beq_refl. cbn [negb].
   rewrite O2. cbn [obind fst snd].
   change (slice pkt 8 24) with (firstn 16 (skipn 8 pkt)). rewrite P2.
